@@ -446,6 +446,8 @@ pub fn exec(run: u64, prog: &Value, out: &mut Out) {
     out.emit(merge(json!({"ev":"new","run":run,"kind":kind,"ctor":ctor_logged(kind, &c),"panic":false}), obs_img(&t.image(), full_limit)));
     let mut hs = Hs(Vec::new());
     let summary = prog.get("summary").map(bool_of).unwrap_or(false);
+    let mut seen_panic = false;
+    let mut refusals: u64 = 0;
     // "shadow": a second table of the same kind kept alive and extended in lock-step (its operations come from the
     // main program's own list, shifted by one): two builders of one type must not influence each other
     let shadow_on = prog.get("shadow").map(bool_of).unwrap_or(false);
@@ -462,6 +464,7 @@ pub fn exec(run: u64, prog: &Value, out: &mut Out) {
                 }
             }
         }
+        let len_before = if summary { guarded(|| t.image().len()).unwrap_or(0) as u64 } else { 0 };
         let r = guarded(|| apply(&mut t, &c, &ops[..i], op, &hs));
         let (h, panicked) = match r {
             Ok(h) => (h, false),
@@ -472,17 +475,19 @@ pub fn exec(run: u64, prog: &Value, out: &mut Out) {
             None => json!([]),
         };
         hs.0.push(h);
-        let observe = panicked || i + 1 == ops.len() || (i + 1) % observe_every == 0 || i < 4;
+        // the first refusal of a program is always observed; later ones follow the program's cadence
+        let observe = (panicked && !seen_panic) || i + 1 == ops.len() || (i + 1) % observe_every == 0 || i < 4;
+        seen_panic |= panicked;
+        if panicked {
+            refusals += 1;
+        }
         if summary {
             // long histories: only generic observations of the image at the observed steps, no per-operation record
             if observe {
                 let img = guarded(|| t.image()).unwrap_or_default();
                 let head = &img[..img.len().min(64)];
                 out.emit(json!({"ev":"sum","run":run,"kind":kind,"i":i + 1,"panic":panicked,"len":img.len() as u64,
-                    "sum8":sum8(&img),"head":jbytes(head),"opname":str_of(get(op, "op"))}));
-            }
-            if panicked {
-                break;
+                    "refusals":refusals,"len_before":len_before,"sum8":sum8(&img),"head":jbytes(head),"opname":str_of(get(op, "op"))}));
             }
             continue;
         }
